@@ -343,6 +343,18 @@ pub fn gen_cases(profile: &str, seed: u64, b: &Budget) -> Vec<Case> {
                     }
                 }
             }
+            "c01" | "c15" | "c02" | "c08" if idx % 6 == 4 => {
+                // threshold-directed for the i32 / i64 residual paths: DC + noise at 20/24 bit with the
+                // default predictor (order 10, precision 15), where sum|coef| ~ 2^shift
+                bps = if idx % 12 == 4 { 24 } else { 20 };
+                family = "dcnoise".to_string();
+                let keep = cfg.block_size;
+                cfg = Cfg { block_size: keep, ..Cfg::default() };
+                if idx % 24 == 4 {
+                    cfg.lpc_order = 4 + idx % 20;
+                    cfg.alpha = None;
+                }
+            }
             "c04" => {
                 mode = if idx % 3 == 0 { Mode::Mt(2) } else if idx % 3 == 1 { Mode::St } else { Mode::Mt(1) };
             }
